@@ -699,6 +699,8 @@ func Run(c *common.Ctx) error {
 			}
 		}
 	}
+	slowEvents(c, w.nodes["primary"], "primary")
+	slowEvents(c, w.nodes["replica"], "replica")
 	// and they restart on their data directories
 	for _, role := range []string{"primary", "replica", "noprimary"} {
 		n := w.nodes[role]
